@@ -23,7 +23,9 @@ SCRIPT = [
 
 def fixture_frames():
     frames = set()
-    for fn in glob.glob("/repo/tests/*.py"):
+    import os
+    repo = os.environ.get("VERIF_REPO", "/repo")
+    for fn in glob.glob(repo + "/tests/*.py"):
         with open(fn) as fh:
             for m in re.finditer(r"\"(-?[0-9]+;-?[0-9]+;-?[0-9]+;-?[0-9]+;-?[0-9]+;[^\"{}]*)\"",
                                  fh.read()):
